@@ -714,3 +714,50 @@ def check_axes(ctx, rule="AXIS"):
             problems.append(f"{nm} reference is {a}; font-relative lengths are measured against the height")
       ctx.check(not problems, rule, key, where, f"axes pct={a_pct} em={a_em} c={a_c} px={a_px} dest={dest}", "; ".join(problems))
   return n
+
+
+
+def check_body_frame(ctx, rule="DEP-frame"):
+  """The body is timed from the document origin: whenever the element handed to a recursive
+  _process_element call can be the document body (directly, or through locals that hold
+  doc.get_body()), the parent interval handed with it must be (None, None) - a region's own interval
+  gates the body, it does not shift it."""
+  ix = ctx.ix
+  pe = ix.func(f"{ISD}._process_element")
+  ctx.unit(pe.module)
+  tainted = set()
+  changed = True
+  while changed:
+    changed = False
+    for st in own_nodes(pe.node):
+      tgts, srcs = [], []
+      if isinstance(st, ast.Assign):
+        tgts, srcs = st.targets, [st.value]
+      elif isinstance(st, ast.AnnAssign) and st.value is not None:
+        tgts, srcs = [st.target], [st.value]
+      elif isinstance(st, ast.For):
+        tgts, srcs = [st.target], [st.iter]
+      for s_ in srcs:
+        if "get_body()" in unparse(s_) or any(isinstance(n, ast.Name) and n.id in tainted for n in ast.walk(s_)):
+          for t in tgts:
+            for n in ast.walk(t):
+              if isinstance(n, ast.Name) and n.id not in tainted:
+                tainted.add(n.id)
+                changed = True
+  e_i = len(pe.params) - 1
+  pb_i, pe_i = pe.params.index("parent_computed_begin"), pe.params.index("parent_computed_end")
+  n = 0
+  for c in own_nodes(pe.node):
+    if isinstance(c, ast.Call) and unparse(c.func).endswith("_process_element") and len(c.args) == len(pe.params):
+      ea = c.args[e_i]
+      may_be_body = "get_body()" in unparse(ea) or any(isinstance(x, ast.Name) and x.id in tainted for x in ast.walk(ea))
+      if not may_be_body:
+        continue
+      n += 1
+      ok = all(isinstance(c.args[i], ast.Constant) and c.args[i].value is None for i in (pb_i, pe_i))
+      ctx.check(ok, rule, f"{pe.qualname}|the body is processed without a parent interval", ctx.where(pe.module, c), "parent interval (None, None)",
+                f"`{short(c.args[e_i], 30)}` can be the document body, and the call hands it the parent interval ({short(c.args[pb_i], 20)}, {short(c.args[pe_i], 20)}): "
+                "the body is resolved relative to the region's interval; region timing must gate, not shift, the body")
+  if n == 0:
+    raise AnalysisError("_process_element: no recursive call receives the document body (anchor changed)")
+  return n
